@@ -240,6 +240,13 @@ def gen_spec(rng, size=None):
         "wl_skip_head": rng.choice([0, 0, 0, 1, 2]),
         "wl_skip_tail": rng.choice([0, 0, 0, 1, 2]),
     }
+    # the water-level record may also start before / end after the rain record
+    if rng.random() < 0.15:
+        spec["wl_skip_head"] = -rng.randint(1, 3 * k)
+        if rng.random() < 0.5:
+            spec["gaps"] = sorted(spec["gaps"] + [[rng.randint(-2 * k, k), rng.randint(1, 2 * k)]])
+    if rng.random() < 0.15:
+        spec["wl_skip_tail"] = -rng.randint(1, 3 * k)
     return spec
 
 
@@ -274,7 +281,11 @@ def render(spec):
     z_lines = ["datetime,wtd (mm)"]
     for f in kept_samples(spec):
         i, j = divmod(f, k)
-        if j == 0:
+        if i < 0:
+            value = zeta[0]                     # before the rain record: level held flat
+        elif i >= len(zeta) - 1:
+            value = zeta[-1]                    # after it: likewise
+        elif j == 0:
             value = zeta[i]
         else:
             value = _r3(zeta[i] + (zeta[i + 1] - zeta[i]) * j / float(k))
@@ -320,7 +331,7 @@ def spec_stretch_sizes(spec):
         else:
             stretches.append([f, f])
     # rain grid times inside the water-level record, plus the closing one
-    first_i = -(-kept[0] // k)
+    first_i = max(0, -(-kept[0] // k))
     last_i = min(kept[-1] // k, n - 1)
     grid = list(range(first_i, last_i + 1)) + [last_i + 1]
     sizes = []
